@@ -322,4 +322,18 @@ example : (historyStates exampleSyms true (true, true, true) (getKList exampleSy
       [((2, 2, 2), [2]), ((2, 1, 1), [0, 7])]).map (fun l => (l.length, totalW l)) = [(6, 1), (8, 1), (11, 1)] := by
   decide +kernel
 
+/-- the hypotheses of `divide_tiles` / `splitVolume_terminates` are satisfiable: a cell of the 4x4x2 grid divided 2x2x3,
+    and the five default tetrahedra with `vmax = 1/50` (all volumes `≤ 2^5/50`) -/
+example (p : V3) :
+    (inCell { K := ⟨1/4, 0, 1/2⟩, dK := ⟨1/4, 1/4, 1/2⟩, factor := 1/32, level := 0 } p ↔
+      ∃ c : Idx, (c.1 < 2 ∧ c.2.1 < 2 ∧ c.2.2 < 3) ∧
+        inCell (child { K := ⟨1/4, 0, 1/2⟩, dK := ⟨1/4, 1/4, 1/2⟩, factor := 1/32, level := 0 } (2, 2, 3) c) p) :=
+  (divide_tiles _ (2, 2, 3) ⟨by norm_num, by norm_num, by norm_num⟩ ⟨by norm_num, by norm_num, by norm_num⟩ p).1
+
+example (g : Gram) : ∀ t ∈ splitVolume g (1/50) 6 (initTets fiveVerts none), t.volume ≤ 1/50 :=
+  splitVolume_terminates g (1/50) (by norm_num) 5 _ (by
+    intro t ht
+    have h : ∀ t ∈ initTets fiveVerts none, t.volume ≤ 2 ^ 5 * (1/50 : Rat) := by decide +kernel
+    exact h t ht)
+
 end WB.C06
